@@ -284,6 +284,8 @@ def handle : Handler := fun input impl =>
   match parseObs pl.pools.length impl with
   | none => ("-", s!"fail:crash:unparsable observation {impl.take 80}")
   | some o =>
+    -- a signal the process did not send itself (another process of the machine): nothing to judge
+    if (o.cli.getD []).contains "rcv" && !o.csig then ("-", "skip:stray-signal") else
     let v := verdict pl o
     let n := pl.pools.length
     -- the caller's cancel may be inserted when the harness cancelled before Run returned; a pool of a multi-pool
